@@ -278,6 +278,11 @@ def gen_histories(tier, seed, tag, probe=True, scribble_twins=False, maxlen=None
             # every ordered pair on the small and medium panels; a sample on the big ones
             k = 120 if big else len(pairs)
             hs += pairs if len(pairs) <= k else rnd.sample(pairs, k)
+            if len(pairs) > k:
+                # (wave 15) never sampled away: a buffer-carrying unit followed by a one-plane update that
+                # comes right after a refresh (a driver that "re-syncs" the other plane from a retained
+                # pointer does so exactly there)
+                hs += [[u, v] for u in A for v in A if len(v) == 2 and v[0] == "disp" and any(":" in o for o in u)]
             # length 3 with a mode-setting first unit (quick LUT / quick refresh): the modes that
             # steer the update paths
             modes = [u for u in A if u[0] in ("lut,quick", "refresh,quick")]
@@ -938,10 +943,17 @@ def gen_c04(tier, seed, ctx=None):
                 if p.name in exhaustive:
                     lim = 10 ** 9
                 if len(idxs) > lim:
-                    # (wave 15) the first two and the LAST FOUR transfers of the call are always kept: the
-                    # trailing command transfers (refresh trigger, activation, deep sleep) are where "the
-                    # last step failed but something still follows" lives
+                    # (wave 15) the first two and the LAST FOUR transfers of the call are always kept, and so
+                    # is every command / parameter transfer (groups of <= 24 transfers; capped at 40): a
+                    # refresh trigger in the MIDDLE of a compound call is where "the step failed but
+                    # something still follows" lives.  Bulk bursts contribute their sampled points.
                     keep = set(idxs[:2]) | set(idxs[-4:])
+                    small, pos2 = [], start
+                    for (dc, ln, cnt) in groups:
+                        if cnt <= 24:
+                            small += list(range(pos2, pos2 + cnt))
+                        pos2 += cnt
+                    keep |= set(small if len(small) <= 40 else rnd.sample(small, 40))
                     keep |= set(rnd.sample(idxs, max(0, lim - len(keep))))
                     idxs = sorted(keep)
                 opname = ops[oi].split(",")[0]
